@@ -534,9 +534,11 @@ class Builder:
                 return "google.protobuf.Empty"
             r = "google.protobuf.Empty" if self.d(st.integers(0, 5)) == 0 else pick()
             md = pick()
-            variant = self.d(st.sampled_from(["ok"] * 8 + ["no-annotation", "missing-response", "missing-metadata"])) if self.p.get("lro_variants") else "ok"
+            variant = self.d(st.sampled_from(["ok"] * 8 + ["no-annotation", "missing-response", "missing-metadata", "missing-both"])) if self.p.get("lro_variants") else "ok"
             if variant == "no-annotation":
                 pass                                   # raw Operation is returned
+            elif variant == "missing-both":
+                meth["lro"] = {"response": "", "metadata": ""}      # the annotation is present but empty
             elif variant == "missing-response":
                 meth["lro"] = {"response": "", "metadata": md}
             elif variant == "missing-metadata":
@@ -578,7 +580,11 @@ class Builder:
                         fld = next(x for x in req["fields"] if x["name"] == c)
                         if not fld.get("oneof") and not fld.get("optional"):
                             fld["required"] = True
-                if self.coin("p_additional"):
+                if self.p.get("p_custom_verb") and self.coin("p_custom_verb"):
+                    # the `custom` pattern of google.api.http (no REST binding is emitted for it; its path still names the
+                    # implicit routing fields)
+                    rule = {"verb": "custom", "kind": self.d(st.sampled_from(["HEAD", "OPTIONS"])), "uri": rule["uri"]}
+                elif self.coin("p_additional"):
                     rule["additional"] = []
                     for _ in range(self.d(st.integers(1, 2))):
                         r2, _c = self.http_rule(req, fileidx)
